@@ -116,6 +116,57 @@ def check_outcome(ctx, cfg, r, h, label, case, i, un, hun, href, refcfg, mo, poi
     ctx.sample(dict(case=case, steps_executed=r["labels"].count("loop:head"), tail=tail, rc=r["rc"]))
 
 
+def library_points(ctx, tg, cfg, wd, un, hun, href, refcfg, points, nsetup, dis, use_model):
+    """interrupt points INSIDE library calls (seed C14-H class: the caller changes the signal disposition or mask around a
+    library call).  harness/sigshim.c (LD_PRELOAD) numbers the calls of H5Dset_extent/H5Dextend, H5Dwrite, fftw(f)_execute and
+    the FFTW planners in execution order and raises SIGINT inside the chosen one, before the library is entered or when it has
+    returned.  Same oracles as for the hook points; the position of the signal relative to the hook points (how many were passed)
+    is logged by the shim at the moment it raises.  Quick: one or two calls per (function, last hook point passed) stratum; thorough: all."""
+    shim = dc.build_shim()
+    out = os.path.join(wd, "lib.h5")
+    base = dc.run_real_lib(tg, cfg, out, shim)
+    hb = dc.h5read(tg, out)
+    same = base["rc"] == 0 and base["labels"] == un["labels"] and hb is not None and \
+        all(hb.get(ds, {}).get("fnv") == hun[ds]["fnv"] for ds in hun if ds.startswith(tuple(dc.ALL_RECORD_DATASETS)))
+    if not same:
+        dis.append(dict(case=dict(cmd=base["cmd"], LD_PRELOAD="harness/sigshim.c"), detail="the run under the shim (no signal) differs from the plain run",
+                        sig={"stage": "correspondence", "what": "shim-transparent"}))
+        return
+    # calls after the handler is installed: main() installs it before its first hook point (C14_sigint_handler_stays_installed)
+    calls = [c for c in base["calls"] if c[2] >= 1]
+    ctx.extra.setdefault("library_calls_per_run", []).append(len(calls))
+    groups = {}
+    for (idx, fn, npts) in calls:
+        groups.setdefault((fn, un["labels"][npts - 1] if npts - 1 < len(un["labels"]) else "?"), []).append(idx)
+    if ctx.quick():
+        chosen = sorted(set([ctx.rng.choice(v) for v in groups.values()] + [ctx.rng.choice(v) for v in groups.values()]))
+    else:
+        chosen = [c[0] for c in calls]
+    plan = [(idx, ctx.rng.random() < 0.2, ctx.rng.random() < 0.3) for idx in chosen]
+    byidx = {c[0]: c for c in calls}
+    models = {}
+    if use_model:
+        models = dc.run_model([("l%d" % idx, cfg, byidx[idx][2] - 1, rep, nsetup) for idx, rep, after in plan])
+    for idx, rep, after in plan:
+        r = dc.run_real_lib(tg, cfg, os.path.join(wd, "libint.h5"), shim, lib_at=idx, rep=rep, after=after)
+        h = dc.h5read(tg, os.path.join(wd, "libint.h5"))
+        fn = byidx[idx][1]
+        case = dict(cmd=" ".join(dc.cmdline(cfg, "libint.h5")), LD_PRELOAD="harness/sigshim.c (built by lib/driver_cases.build_shim)",
+                    VERIF_LIBSIG_AT=idx, VERIF_LIBSIG_WHEN="after" if after else "before", VERIF_LIBSIG_REPEAT=rep,
+                    INOVESA_VERIF_SIGINT_REPEAT=rep, function=fn)
+        if not r["raised"] or r["raised"][0][0] != idx or r["raised"][0][1] != fn:
+            dis.append(dict(case=case, detail="library call %d of the run is not %s any more, or was not reached (%s)" % (idx, fn, r["raised"][:1]),
+                            sig={"stage": "correspondence", "what": "library-call-sequence"}))
+            continue
+        npts = r["raised"][0][2]
+        i = npts - 1
+        label = "lib:%s after %s" % (fn, un["labels"][i] if i < len(un["labels"]) else "?")
+        case["label"] = label
+        check_outcome(ctx, cfg, r, h, label, case, i, un, hun, href, refcfg, models.get("l%d" % idx) if npts == byidx[idx][2] else None,
+                      points, nsetup, dis)
+        ctx.count("libpoint:" + fn)
+
+
 def async_stream(ctx, tg, wd, tfile):
     """thorough: real asynchronous SIGINT at random times on a run long enough to be hit"""
     cfg = dict(n=64, N=300, T=1, outstep=10, h5save=5, renorm=0, wake=True, dynrf=False, tracking=None, verbose=False)
@@ -233,6 +284,8 @@ def run(ctx):
     ctx.rule = ("short runs (grid 16/32, 6-8 steps, outstep 2/3, SavePhaseSpace 1, wake on, tracking on, renormalisation "
                 "off/initial/periodic); SIGINT raised by the hook at the i-th executed point, for EVERY point of the run (set-up included), a third "
                 "(quick, one configuration) / a quarter (thorough, three configurations) of them also with repeated signals; "
+                "SIGINT raised INSIDE library calls (LD_PRELOAD shim harness/sigshim.c around H5Dset_extent/H5Dwrite/fftw execute and plan calls; "
+                "quick: one call per function and last hook point passed, thorough: every call), before entering the library or after it returned; "
                 "thorough also asynchronous kill -INT at random times; four ways of leaving the set-up early (nothing to do, unknown output type, option "
                 "error, results file cannot be created), each undisturbed and with SIGINT at set-up points; the model executes the generated "
                 "set-up skeleton under the environment inferred from the run's own label trace; "
@@ -241,8 +294,10 @@ def run(ctx):
     tg = ctx.build(harness=("h5cat",), want_binary=True)
     ctx.trusted.add("harness: harness/h5cat.cpp, lib/driver_cases.py, VERIF_POINT hook (inc/VerifHooks.hpp: raise(SIGINT) is "
                     "synchronous at the point), HDF5/FFTW libraries")
-    ctx.trusted.add("not carried by a theorem: delivery of a signal inside library code (exercised by the asynchronous stream in "
-                    "the thorough tier only); async-signal-safety of Display::SIGINT_handler (stores to a volatile bool) is read off the source")
+    ctx.trusted.add("harness/sigshim.c (LD_PRELOAD: raise(SIGINT) inside wrapped HDF5/FFTW entry points; the interior of the libraries "
+                    "is reached by the asynchronous stream of the thorough tier only); translate/signals2coq.py is a lexical scan "
+                    "(preprocessor conditionals not evaluated, function pointers to signal() obtained other than by name are not seen); "
+                    "async-signal-safety of Display::SIGINT_handler (stores to a volatile bool) is read off the source")
     dis = []
     # decision rule: a broken proof/translation stage does not stop the check - the property oracle still runs on
     # the binary to look for a concrete failing input; only the model comparison is skipped
@@ -290,6 +345,7 @@ def run(ctx):
             check_outcome(ctx, cfg, r, h, label, case, i, un, hun, href, refcfg, models.get("p%d_%d" % (i, rep)), points, nsetup, dis)
             ntr += 1
         ctx.extra.setdefault("points_per_run", []).append(P)
+        library_points(ctx, tg, cfg, wd, un, hun, href, refcfg, points, nsetup, dis, use_model)
     early_exits(ctx, tg, wd, dis, use_model)
     if not ctx.quick():
         async_stream(ctx, tg, wd, tfile)
@@ -304,6 +360,13 @@ def replay(ctx, rp):
     c = rp.get("case") or {}
     print(json.dumps(c, indent=1))
     print("observed:", rp.get("observed"))
+    if c.get("VERIF_LIBSIG_AT") is not None:
+        shim = dc.build_shim()
+        print("re-run: LD_PRELOAD=%s VERIF_LIBSIG_AT=%s VERIF_LIBSIG_WHEN=%s %s INOVESA_VERIF_TRACE=<file> %s %s   (SIGINT inside library call %s = %s; "
+              "env from lib/vp_build.xdg_env(), under timeout)" % (shim, c.get("VERIF_LIBSIG_AT"), c.get("VERIF_LIBSIG_WHEN"),
+                                                                   "VERIF_LIBSIG_REPEAT=1" if c.get("VERIF_LIBSIG_REPEAT") else "", tg["inovesa"], c.get("cmd"),
+                                                                   c.get("VERIF_LIBSIG_AT"), c.get("function")))
+        return
     print("re-run: INOVESA_VERIF_SIGINT_AT=%s %s %s %s   (env from lib/vp_build.xdg_env(), under timeout)" % (
         c.get("INOVESA_VERIF_SIGINT_AT"), "INOVESA_VERIF_SIGINT_REPEAT=1" if c.get("INOVESA_VERIF_SIGINT_REPEAT") else "",
         tg["inovesa"], c.get("cmd")))
